@@ -498,6 +498,39 @@ func (e *nodeEngine) recover(lost *nd, wantStatus string, o *Out) string {
 	})
 	if !okReq {
 		o.Fail("C18", "no-recovery", "requests after the settle bound: "+res+" tables: "+e.diag())
+	} else {
+		// "succeed again" is not "succeed once": with the routing information settled, every
+		// further round from every survivor succeeds too (a lookup that depends on map iteration
+		// order - e.g. stopping at the lost node's stale row - passes one round by luck)
+		for round := 0; round < 6; round++ {
+			if r2, all := e.requests(); !all {
+				o.Fail("C18", "unstable-recovery", fmt.Sprintf("round %d after recovery: %s tables: %s", round, r2, e.diag()))
+				break
+			}
+		}
+		// the survivors' routing tables: whenever a survivor's table lists another ACTIVE node
+		// with a listener for the endpoint, its lookup finds a node (and never the lost one)
+		for _, s := range e.survivors() {
+			cs := s.srv.ClusterState()
+			for ep := range e.want() {
+				offered := false
+				for _, n := range cs.Nodes() {
+					if n.ID != s.id && n.Status == cluster.NodeStatusActive && n.Endpoints[ep] > 0 {
+						offered = true
+					}
+				}
+				if !offered {
+					continue
+				}
+				o.Count("oracle:C18:lookup-finds-survivor")
+				for i := 0; i < 16; i++ {
+					if n, ok := cs.LookupEndpoint(ep); !ok || n.ID == lost.id {
+						o.Fail("C18", "lookup-misses-survivor", "at="+s.id+" ep="+Hx(ep)+" tables: "+e.diag())
+						break
+					}
+				}
+			}
+		}
 	}
 	o.Add("recover-ms", int(time.Since(t0).Milliseconds()))
 	return "seen=" + e.seen(lost) + " total=" + ShowCounts(e.total()) + " recovered=" + B01(okReg && okStatus && okReq)
